@@ -268,6 +268,8 @@ WOp(key, v) == [op |-> "jswrite", key |-> key, v |-> v, js |-> JsParts(v)]
 MapWs == {[fam |-> "mapw", k |-> k, key |-> key, steps |-> <<WOp(key, nv)>>] : k \in {"iface", "int8", "string", "bool"}, key \in {K_a, K_b}, nv \in {S!Null, S!Undef}}
          \cup {[fam |-> "mapw", k |-> k, key |-> K_b, steps |-> <<WOp(K_b, MapWVal(k)), WOp(K_b, nv)>>] : k \in {"iface", "int8", "string", "bool"}, nv \in {S!Null, S!Undef}}
          \cup {[fam |-> "mapw", k |-> k, key |-> K_b, steps |-> <<WOp(K_b, nv)>>] : k \in S!NilableKinds, nv \in {S!Null, S!Undef}}
+         \cup {[fam |-> "mapw", k |-> "ptr:inner", key |-> K_b, steps |-> <<WOp(K_b, v)>>] :
+                v \in {S!JObj(<<<<78>>>>, <<S!IntV(2)>>), S!JObj(<<<<78>>>>, <<S!NumV(Canon(FALSE, <<3>>, -1))>>), S!IntV(5), S!StrV(<<115>>), S!JArr(<<S!IntV(1)>>)}}
          \cup {[fam |-> "mapw", k |-> k, key |-> K_b, steps |-> <<WOp(K_b, nv), WOp(K_b, nv2)>>] : k \in S!NilableKinds \cup {"iface"}, nv \in {S!Null, S!Undef}, nv2 \in {S!Null, S!Undef}}
 
 (* ---- expectations ---------------------------------------------------------- *)
